@@ -63,6 +63,9 @@ pub struct Case {
     pub shape: BatchShape,
     /// selection mask pattern, cycled over the rows: 0 = false, 1 = true, 2 = NULL
     pub mask: Vec<u8>,
+    /// the table is laid out this many times one after the other (capped by `max_rows`)
+    #[serde(default)]
+    pub repeat: u8,
 }
 
 pub fn shape_strategy() -> BoxedStrategy<BatchShape> {
@@ -250,15 +253,15 @@ impl Property for C33 {
         let g = G::new(GenCfg { funcs: false, max_depth: tier.pick(3, 4), inlist_sizes: vec![0, 1, 2, 3, 4, 5, 8, 9, 16, 17, 32, 33, 40] });
         let max_rows = tier.pick(200u16, 400u16);
         let rows = prop_oneof![4 => Just(max_rows), 1 => 1u16..=8];
-        (egen::all_cols(), g.root(), rows, any::<u64>(), prop::bool::weighted(0.25), shape_strategy(), prop::collection::vec(prop_oneof![3 => Just(1u8), 3 => Just(0u8), 1 => Just(2u8)], 1..12))
-            .prop_map(|(mut cols, expr, max_rows, row_seed, checked, shape, mask)| {
+        (egen::all_cols(), g.root(), rows, any::<u64>(), prop::bool::weighted(0.25), shape_strategy(), prop::collection::vec(prop_oneof![3 => Just(1u8), 3 => Just(0u8), 1 => Just(2u8)], 1..12), prop_oneof![2 => Just(1u8), 2 => 2u8..=40])
+            .prop_map(|(mut cols, expr, max_rows, row_seed, checked, shape, mask, repeat)| {
                 egen::prune_cols(&mut cols, &expr.columns());
-                Case { cols, expr, max_rows, row_seed, checked, shape, mask }
+                Case { cols, expr, max_rows, row_seed, checked, shape, mask, repeat }
             })
             .boxed()
     }
     fn budget(&self, tier: Tier) -> Budget {
-        Budget::new(tier.pick(40_000, 2_000_000), tier.pick(8, 16)).min_nontrivial(tier.pick(5_000, 200_000)).case_timeout(60)
+        Budget::new(tier.pick(30_000, 2_000_000), tier.pick(8, 16)).min_nontrivial(tier.pick(4_000, 200_000)).case_timeout(60)
     }
     fn rule(&self) -> String {
         "type-directed expression tree (depth<=3 quick, 4 thorough) over small-domain nullable columns, evaluated on the cross product of the referenced columns' domains (<=200 rows quick, sampled when larger), whole batch + evaluate_selection + filtered batch; \
@@ -288,7 +291,7 @@ fn run_case(case: &Case) -> CaseResult {
         if used.iter().any(|i| *i as usize >= tys.len()) {
             return CaseResult::discard("malformed case: column index");
         }
-        let table = build_table(&case.cols, &used, case.max_rows as usize, case.row_seed);
+        let table = build_table(&case.cols, &used, case.max_rows as usize, case.row_seed).repeat(case.repeat as usize, case.max_rows as usize);
         let schema = make_schema(&case.cols, &used, &case.shape);
         let batch = match make_batch(&case.cols, &table, &schema, &case.shape) {
             Ok(b) => b,
